@@ -25,9 +25,9 @@ var maxU64 = "18446744073709551615"
 var leafSpecs = []leafSpec{
 	{'l', `1`, []SRule{Ru("min", "0"), Ru("min", "1"), Ru("max", "1"), Ru("max", "5.0"), Ru("exclusiveMinimum", "true"), Ru("exclusiveMaximum", "false"),
 		Ru("type", `"integer"`), Ru("const", "true"), Ru("const", "false"), Ru("nullable", "true"), Ru("nullable", "false"),
-		Ru("enum", `[1, 2]`), Ru("enum", `@e`), Ru("or", `["integer", "string"]`), Ru("or", `[{type: "integer", min: 0}, {type: "string"}]`), Ru("or", `[{type: "enum", enum: [1, "x"]}, {type: "boolean"}]`),
+		Ru("enum", `[1, 2]`), Ru("enum", `@e`), Ru("or", `["integer", "string"]`), Ru("or", `[{type: "integer", min: 0}, {type: "string"}]`), Ru("or", `[{type: "enum", enum: [1, "x"]}, {type: "boolean"}]`), Ru("or", `["uuid", "integer"]`),
 		Ru("type", `"any"`), Ru("type", `"@a"`), Ru("type", `"mixed"`), Ru("type", `"enum"`)}},
-	{'l', `1.5`, []SRule{Ru("precision", "1"), Ru("precision", "2"), Ru("precision", two63), Ru("min", "0.5"), Ru("max", "1.50"), Ru("type", `"float"`), Ru("type", `"decimal"`), Ru("nullable", "true"), Ru("const", "true")}},
+	{'l', `1.5`, []SRule{Ru("precision", "1"), Ru("precision", "2"), Ru("precision", two63), Ru("min", "0.5"), Ru("max", "1.50"), Ru("type", `"float"`), Ru("type", `"decimal"`), Ru("nullable", "true"), Ru("const", "true"), Ru("or", `["float", "email"]`)}},
 	{'l', `0.123456`, []SRule{Ru("precision", "6"), Ru("precision", "7"), Ru("precision", "10"), Ru("precision", "16"), Ru("min", "0"), Ru("nullable", "true")}},
 	{'l', `-12.0000001`, []SRule{Ru("precision", "7"), Ru("precision", "9"), Ru("max", "0")}},
 	{'l', `"ab"`, []SRule{Ru("minLength", "0"), Ru("minLength", "2"), Ru("maxLength", "2"), Ru("maxLength", big19), Ru("maxLength", big20), Ru("maxLength", two63), Ru("maxLength", maxU64), Ru("regex", `"^a"`), Ru("regex", `"a\\.b|ab"`),
@@ -37,14 +37,14 @@ var leafSpecs = []leafSpec{
 	{'l', `"2021-01-02T07:23:12+03:00"`, []SRule{Ru("type", `"datetime"`), Ru("nullable", "true")}},
 	{'l', `"550e8400-e29b-41d4-a716-446655440000"`, []SRule{Ru("type", `"uuid"`)}},
 	{'l', `"http://x.y/z"`, []SRule{Ru("type", `"uri"`), Ru("regex", `"x"`)}},
-	{'l', `true`, []SRule{Ru("type", `"boolean"`), Ru("const", "true"), Ru("nullable", "true"), Ru("enum", `[true, false]`)}},
-	{'l', `null`, []SRule{Ru("type", `"null"`), Ru("nullable", "true"), Ru("enum", `[null, 1]`), Ru("type", `"any"`)}},
+	{'l', `true`, []SRule{Ru("type", `"boolean"`), Ru("const", "true"), Ru("nullable", "true"), Ru("enum", `[true, false]`), Ru("or", `["date", "boolean"]`)}},
+	{'l', `null`, []SRule{Ru("type", `"null"`), Ru("nullable", "true"), Ru("enum", `[null, 1]`), Ru("type", `"any"`), Ru("or", `["datetime", "null"]`)}},
 	{'r', `@a`, []SRule{Ru("nullable", "true")}},
 	{'r', `@a | @b`, []SRule{Ru("nullable", "true")}},
 	{'r', `@a|@b`, []SRule{Ru("nullable", "true")}},
 	{'r', `@a  |	@c | @b`, nil},
 	{'o', ``, []SRule{Ru("additionalProperties", "true"), Ru("additionalProperties", "false"), Ru("additionalProperties", `"string"`), Ru("additionalProperties", `"@a"`), Ru("additionalProperties", `"any"`),
-		Ru("allOf", `"@a"`), Ru("allOf", `["@a", "@c"]`), Ru("nullable", "true"), Ru("type", `"object"`), Ru("or", `[{type: "object"}, {type: "string"}]`), Ru("type", `"@a"`), Ru("type", `"any"`)}},
+		Ru("allOf", `"@a"`), Ru("allOf", `["@a", "@c"]`), Ru("nullable", "true"), Ru("type", `"object"`), Ru("or", `[{type: "object"}, {type: "string"}]`), Ru("or", `["uri", "object"]`), Ru("type", `"@a"`), Ru("type", `"any"`)}},
 	{'a', ``, []SRule{Ru("minItems", "0"), Ru("maxItems", "0"), Ru("maxItems", big20), Ru("maxItems", maxU64), Ru("type", `"array"`), Ru("nullable", "true"), Ru("or", `["array", "@a"]`), Ru("type", `"any"`)}},
 }
 
